@@ -189,13 +189,18 @@ RC = "react::react_cache::verif_h::"
 RC_SRC = ["src/react/react_cache.rs", "src/react/utils.rs", "src/react/commands.rs"]
 
 
-def k2(id, harness, props, functions, src, bounds, claim, tiers=("quick", "thorough"), expect="pass", witness=None, unwindset=None):
+def k2(id, harness, props, functions, src, bounds, claim, tiers=("quick", "thorough"), expect="pass", witness=None, unwindset=None,
+       fp_restrict=None, stubs=None):
     d = dict(id=id, engine="k2", harness=harness, props=list(props), expect=expect, functions=functions, src=src,
              bounds=bounds, claim=claim, tiers=list(tiers))
     if witness:
         d["witness"] = witness
     if unwindset:
         d["unwindset"] = unwindset
+    if fp_restrict:
+        d["fp_restrict"] = fp_restrict
+    if stubs:
+        d["stubs"] = stubs
     return d
 
 
@@ -517,6 +522,135 @@ OBLIGATIONS.append(k2("once.wrapper", _k2h("react::react_commands", "once_reacto
 # Dropped after measurement (they do not finish within the thorough caps, 14 GB / 1500 s, so keeping them would make a
 # check inconclusive on the unchanged tree; their subject moves to "outside the claim" in DESIGN.md section 4):
 #  K1 autodespawn.refcount / entreactors.* / mode.prepare / revoketoken.unique_entities: superseded by the case-split K2
+
+# ---- the recursive runner, decomposed into steps (C02, C09, C11, C12, C05, C13, C18) ----------------------------------
+# Indirect calls of the runner are restricted per call site (goto-instrument --restrict-function-pointer adds an
+# `ASSERT false` for any other target, so the restriction is checked): the setup pointer to the start_* functions of
+# commands.rs, the harness's marker functions and the default no-op closure; the cleanup pointer to end_*, the markers and
+# a panicking fallback; the boxed callback to the harness's closures.
+RUNNER_FP = [
+    [r"^react::syscommand_runner::SystemCommandSetup::run$",
+     [r"^react::commands::start_\w+$", r"^react::syscommand_runner::verif_h::setup_\d$",
+      r"^<\{closure@/repo/src/react/syscommand_runner.rs[^}]*\} as std::ops::FnOnce<\(&mut bevy::world::World, react::commands::SystemCommand\)>>::call_once$"]],
+    [r"^react::system_command_spawning::SystemCommandCleanup::run$",
+     [r"^react::commands::end_\w+$", r"^react::syscommand_runner::verif_h::cleanup_\d$", r"verif_h::fp_never$"]],
+    [r"^<std::boxed::Box<dyn for<'a> std::ops::FnMut\(&'a mut bevy::world::World, react::system_command_spawning::SystemCommandCleanup\).*::call_mut$",
+     [r"^react::syscommand_runner::verif_h::(logger|reenter|runner_\w+|diag_\w+)::\{closure#\d+\}$"]],
+    [r"^bevy::world::World::flush_commands$", [r"^<\(.+\) as bevy::world::ApplyList>::apply_cmd$"]],
+    [r"^bevy::world::CommandQueue::apply$", [r"^<\(.+\) as bevy::world::ApplyList>::apply_cmd$"]],
+]
+RUNNER_STUBS = [
+    "garbage_collect_entities -> no-op (the collector is decided by gc.*; where the runner polls is outside these queries)",
+    "schedule_removal_and_despawn_reactors -> no-op (decided by rc.removal_poll_* / rc.despawn_dispatch_*)",
+    "bevy::world::Commands::queue -> Commands::m_queue_record (the model's queue without its verification switches)",
+    "EntityWorldMut::despawn_recursive -> flag (only reachable on the runner's error path 'system command component is "
+    "missing on insert'; every harness asserts the flag stays clear)",
+]
+_RS = ["src/react/syscommand_runner.rs", "src/react/system_command_spawning.rs", "src/react/command_queue.rs"]
+_RH = "react::syscommand_runner"
+_RF = ["syscommand_runner", "cleanup_on_abort", "SystemCommandSetup::run", "SystemCommandCleanup::run", "SystemCommandCallback::run",
+       "SystemCommandStorage::take", "SystemCommandStorage::insert", "CobwebCommandQueue::push", "CobwebCommandQueue::remove",
+       "CobwebCommandQueue::append", "CobwebCommandQueue::pop_front"]
+
+
+def _runner(id, name, props, bounds, claim, tiers=("quick", "thorough"), expect="pass", extra_stub=None):
+    return k2(id, _k2h(_RH, name), props, _RF, _RS, bounds, claim, tiers, expect=expect, fp_restrict=RUNNER_FP,
+              stubs=RUNNER_STUBS + ([extra_stub] if extra_stub else []))
+
+
+OBLIGATIONS += [
+    _runner("runner.missing_root", "runner_step_missing_target_root", ["C02", "C11", "C18", "C05"],
+            "root call (tree position 0); target id never existed; one other idle system",
+            "a command for a missing system runs no system, runs its setup then its cleanup exactly once (event data claimed and "
+            "released), leaves the counter, the postponement buffer and other systems untouched"),
+    _runner("runner.stale_nested", "runner_step_stale_target_nested", ["C02", "C11", "C18", "C05"],
+            "inside a tree (position 2); target is a stale id (same index, older generation) of a live system; one postponed "
+            "command of another system present", "as runner.missing_root; the other system's postponed command is not touched",
+            ("thorough",)),
+    _runner("runner.entity_without_system", "runner_step_entity_without_system", ["C11", "C18", "C05", "C02"],
+            "target entity alive but without a system; tree position symbolic in {0, 3}",
+            "a command aimed at a live entity that carries no system still runs setup then cleanup once; the entity is left alone"),
+    _runner("runner.busy_nested", "runner_step_target_busy_nested", ["C02", "C09", "C12", "C04", "C03"],
+            "target currently executing (callback out); tree position 1; one command of another system already postponed",
+            "the command is appended to the postponement buffer unchanged (own command, setup, cleanup) behind what is there; "
+            "nothing runs now - no system, no setup, no cleanup"),
+    _runner("runner.busy_root", "runner_step_target_busy_root", ["C11", "C02", "C18"],
+            "target's callback lost; tree position 0", "at the root a command whose system is lost is aborted with setup+cleanup, "
+            "nothing is postponed", ("thorough",)),
+    _runner("runner.plain_run", "runner_step_plain_run", ["C02", "C04", "C09", "C11", "C13"],
+            "idle target; tree position = ANY usize below usize::MAX (symbolic)",
+            "setup, the system exactly once, its cleanup, in-line; the callback is back in its storage; counter reset at the root, "
+            "advanced by one inside a tree - at every depth (no depth at which a command is dropped)"),
+]
+_REPLAY = ("the replay step on the REAL runner body with its nested runner calls recorded (generated twin "
+           "syscommand_runner_top + #[kani::stub(syscommand_runner, record_nested)]): A runs once with the caller's setup/cleanup and "
+           "is back in its storage; then exactly the postponed commands for A are handed to the runner, in the order they were "
+           "postponed, each with its OWN setup and cleanup; commands for B stay postponed in order; at the root they are discarded "
+           "through their own setup+cleanup without running, the buffer is empty and the counter reset")
+for k, tiers_root, tiers_nested in [(1, ("thorough",), ("quick", "thorough")), (2, ("quick", "thorough"), ("thorough",)),
+                                    (3, ("thorough",), ("thorough",))]:
+    for root, tiers in ((True, tiers_root), (False, tiers_nested)):
+        OBLIGATIONS.append(_runner(
+            f"runner.replay_{k}_{'root' if root else 'nested'}", f"runner_step_replay_{k}_{'root' if root else 'nested'}",
+            ["C02", "C09", "C12", "C05", "C11", "C03"],
+            f"{k} postponed command(s), each symbolically for A (about to run) or B (still executing / lost), distinct setup and "
+            f"cleanup per command; tree position {'0' if root else 'ANY value in 1..usize::MAX-8 (symbolic)'}",
+            _REPLAY, tiers,
+            extra_stub="syscommand_runner (the ORIGINAL, called from the twin's replay closure) -> record_nested: records "
+                       "(command, setup reactor, setup fn, cleanup fn) and logs one mark; the nested call's own behaviour is "
+                       "decided by runner.plain_run / runner.busy_* / runner.missing_*"))
+OBLIGATIONS.append(_runner("runner.witness", "runner_step_witness", ["C02", "C09", "C11"], "-", "vacuity twin of the runner step family",
+                           expect="fail"))
+
+_CS = ["src/react/commands.rs"]
+_APPLY_STUB = ["syscommand_runner -> record_runner: counts the calls and records (command, setup reactor, which start_* function, "
+               "which end_* function); the runner itself is decided by runner.*"]
+for (nm, fn, props, what) in [
+    ("system_command", "<SystemCommand as Command>::apply", ["C02", "C03", "C18"],
+     "applying a system command hands it to the runner exactly once with no event setup/cleanup and prepares no event data"),
+    ("event_command", "<EventCommand as Command>::apply", ["C02", "C03", "C05", "C12", "C18"],
+     "a system event is prepared for exactly its target and handed to the runner exactly once with the system-event "
+     "setup/cleanup - also when the target is gone (so that the payload is released by the abort path)"),
+    ("reaction_resource", "<ReactionCommand as Command>::apply (Resource)", ["C02", "C03"],
+     "a resource-mutation reaction reaches the runner once, with no event data"),
+    ("reaction_entity", "<ReactionCommand as Command>::apply (EntityReaction)", ["C02", "C03", "C12", "C18"],
+     "source entity and reaction type (insertion / mutation / removal, symbolic) are prepared for exactly that reactor and the "
+     "runner is reached exactly once with the entity-reaction setup/cleanup"),
+    ("reaction_despawn", "<ReactionCommand as Command>::apply (Despawn)", ["C02", "C03", "C07", "C08", "C18"],
+     "the despawned entity and the reactor's handle are prepared for exactly that reactor; runner reached once with the despawn "
+     "setup/cleanup"),
+    ("reaction_entity_event", "<ReactionCommand as Command>::apply (EntityEvent)", ["C02", "C03", "C05", "C16", "C18"],
+     "data entity and target are prepared for that reactor (both trackers) and the runner is reached exactly once - also when "
+     "the reactor is gone, so that its share of the payload is released"),
+    ("reaction_broadcast", "<ReactionCommand as Command>::apply (BroadcastEvent)", ["C02", "C03", "C05", "C18"],
+     "the data entity is prepared for that reactor and the runner is reached exactly once - also when the reactor is gone"),
+]:
+    OBLIGATIONS.append(k2(f"cmd.apply_{nm}", _k2h("react::commands", f"apply_{nm}"), props, [fn], _CS,
+                          "target symbolically a live entity or a stale id; all four trackers empty before", what,
+                          stubs=_APPLY_STUB))
+for (nm, fns, props, bounds, what, tiers) in [
+    ("broadcast_event", ["start_broadcast_event", "end_broadcast_event", "try_cleanup_data_entity", "EventAccessTracker::start",
+                         "EventAccessTracker::end", "DataEntityCounter::decrement"], ["C05", "C03", "C04", "C11"],
+     "readers still scheduled: symbolic 1..3; another system's event pending",
+     "start exposes exactly the pending data of this reactor; end clears the flag and takes one share off: the payload is dropped "
+     "(once) iff this was the last reader, never earlier", ("quick", "thorough")),
+    ("entity_event", ["start_entity_event", "end_entity_event", "try_cleanup_data_entity"], ["C05", "C03", "C04", "C11", "C16"],
+     "readers symbolic 1..2", "as broadcast, plus the event's target is exposed as the reaction source and that flag is cleared too",
+     ("thorough",)),
+    ("system_event", ["start_system_event", "end_system_event", "SystemEventAccessTracker::start", "SystemEventAccessTracker::end"],
+     ["C05", "C03", "C04", "C11"], "payload not taken by the system",
+     "the data is exposed to its target; the cleanup despawns the bookkeeping entity and drops an untaken payload once",
+     ("quick", "thorough")),
+    ("entity_reaction", ["start_entity_reaction", "end_entity_reaction"], ["C03", "C04", "C11", "C12"],
+     "one pending reaction (queues with several entries: ent.step)", "source and type of the causing event exposed for exactly "
+     "this reactor; the entry is consumed; flag cleared", ("thorough",)),
+    ("despawn_reaction", ["start_despawn_reaction", "end_despawn_reaction", "DespawnAccessTracker::start", "DespawnAccessTracker::end"],
+     ["C07", "C03", "C04", "C08", "C11"], "ref-counted (cleanup mode) reactor whose only handle travels with the reaction",
+     "the handle keeps the reactor while the reaction is pending and running; end releases it and the reactor reaches the "
+     "collector exactly once", ("quick", "thorough")),
+]:
+    OBLIGATIONS.append(k2(f"cmd.pair_{nm}", _k2h("react::commands", f"pair_{nm}"), props, fns, _CS, bounds, what, tiers))
+
 #  obligations refcount.order_*, mode.*, token.unique_entities, rc.entity_event_* / rc.insertion_* (iter_rtype, count in context);
 #  gc.*, revoke.routing_*, entreactors.remove_shape*, rc.despawn_dispatch_*: written, compile, exceed the caps.
 _THOROUGH_ONLY = {"entreactors.dispatch", "entreactors.remove", "entreactors.witness", "rc.insertion_1_2_0_1", "rc.mutation_0_0_2_1"}
